@@ -126,7 +126,7 @@ def shrink(binp, job, tape, work, cls, budget=24):
     return best
 
 
-def run_gen(args, PROP, gen_kind, modes, rule, extra_assumptions):
+def run_gen(args, PROP, gen_kind, modes, rule, extra_assumptions, extra_coverage=None):
     P = PROP.lower()
     tier = args.tier if args.tier in ("quick", "thorough") else "quick"
     seed = args.seed if args.seed is not None else int(os.environ.get("VERIF_SEED", "1") or "1")
@@ -273,6 +273,7 @@ def run_gen(args, PROP, gen_kind, modes, rule, extra_assumptions):
             "wall_s": round(wall, 2),
             "violations": len(reported),
         }
+        ev["coverage"].update(extra_coverage or {})
         json.dump(ev, open(os.path.join(VERIF, "evidence", PROP + ".json"), "w"), indent=1)
     print(PROP + " tier=%s seed=%d shards=%d cases=%d rejected=%d load-panics=%d permutations=%d passed=%d failed=%d sim=%.1fs wall=%.1fs" % (
         tier, seed, len(results), agg["cases"], agg["rejected"], agg["load_panics"], agg["permutations"], agg["passed"], agg["failed"], agg["sim_seconds"], wall))
